@@ -317,7 +317,7 @@ def c01_tx_signature_gate(ctx, v):
             calls = [e for e in o.events if e[0] == "call" and re.search(r"verify_signature$", e[1])]
             good = []
             for c in calls:
-                a = [ex.deref_value(x) if isinstance(x, S.Ref) else x for x in c[2]]
+                a = getattr(c[2], "snap", None) or [ex.deref_value(x) if isinstance(x, S.Ref) else x for x in c[2]]
                 if len(a) == 3 and all(isinstance(x, S.Bytes) for x in a):
                     same = z3.And(value_eq(ex, a[0], hfs), value_eq(ex, a[1], sig), value_eq(ex, a[2], owner))
                     verdict = c[3] if z3.is_bool(c[3]) else (c[3].bv != 0)
@@ -334,3 +334,55 @@ def c01_tx_signature_gate(ctx, v):
                 return v.undecided("solver: no verdict")
     v.covers_total += 1
     v.covers_sat += 1 if ok else 0
+
+
+def c01_stake_input_must_exist(ctx, v):
+    """Blockchain::is_slip_unlocked(key) — the only existence / unspent check applied to the inputs
+    of a staking (BlockStake) transaction, which returns from Transaction::validate before the
+    general ledger look-up — for every key: it answers true only if the ledger holds that key
+    as spendable (utxoset.get(key) == Some(true)), whatever the slip type and height the key
+    decodes to."""
+    from .models import mk_some, mk_none, mk_ok
+    body = ctx.body(r"blockchain::<impl at [^>]*>::is_slip_unlocked$")
+    ex = ctx.executor(loop_bound=3, inline="auto", no_inline=[r"parse_slip_from_utxokey$", r"get_latest_unlocked_stake_block_id$", r"fmt", r"to_hex"])
+    ex.pure = [r".*"]
+    present = z3.Bool("ledger_holds_key")
+    spendable = z3.Bool("ledger_value_spendable")
+    slip = L.sym_slip(ctx, ex, "decoded")
+    looked = []
+
+    def hook(ex_, st, callee, args, dty):
+        if re.search(r"parse_slip_from_utxokey$", callee):
+            return mk_ok(dty, ex_.copy_value(slip))
+        if re.search(r"(?:AHashMap|HashMap)::<\[u8; 59\], bool[^>]*>::get::", callee):
+            st.events.append(("lookup", callee, args, None))
+            return ("__fork__", [(present, mk_some(dty, S.Ref(S.Cell(spendable)))), (z3.Not(present), mk_none(dty))])
+        return None
+    ex.on_call = hook
+    st = S.State()
+    st.pc.append(L.enum_in_range(L.slip_field(ctx, slip, "slip_type"), L.SLIP_TYPES))
+    outs = ex.run(body, [S.Ref(S.Cell(S.Opaque("blockchain", "Blockchain"))), S.Ref(S.Cell(ex.fresh_value("[u8; 59]", "utxo_key")))], st)
+    v.paths += len(outs)
+    n = 0
+    for o in outs:
+        if o.kind in ("unsupported", "unwound", "path-limit"):
+            return v.undecided("%s %s" % (o.kind, o.info))
+        if o.kind == "panic":
+            L.report_panic(v, ex, o, "is_slip_unlocked panics: %s" % o.info)
+            continue
+        if o.kind != "return":
+            continue
+        res = o.value if z3.is_bool(o.value) else (o.value.bv != 0)
+        seen = [e for e in o.events if e[0] == "lookup"]
+        ok_cond = z3.And(present, spendable) if seen else z3.BoolVal(False)
+        r, m = ex.model_for(o.pc, z3.And(res, z3.Not(ok_cond)))
+        v.queries += 1
+        if r == z3.sat:
+            tname = [nm for nm, d in ctx.enums["SlipType"] if d == m.eval(L.slip_field(ctx, slip, "slip_type").discr.bv, model_completion=True).as_long()]
+            v.fail("is_slip_unlocked answers true for a %s key %s" % (tname[0] if tname else "?", "without looking it up in the ledger" if not seen else "that the ledger does not hold as spendable"))
+        elif r == z3.unsat:
+            n += 1
+        else:
+            return v.undecided("solver: no verdict")
+    v.covers_total += 1
+    v.covers_sat += 1 if n else 0
